@@ -158,8 +158,8 @@ def _apply_rules(text, opts, log, what):
             raise GenError('unknown rule %s for %s' % (r, what))
     for rid, pat, rep in opts['subs']:
         new, n = re.subn(pat, rep.replace('\\n', '\n'), text)
-        if n == 0:
-            raise GenError('%s: sub %s /%s/ matched nothing (anchor lost)' % (what, rid, pat))
+        # a chain that does not occur needs no translation: if the code was edited so that the pattern no longer matches, the
+        # untranslated text either still means the same to the verifier or is rejected by it (UNDECIDED) -- never a wrong verdict
         log.append((rid, '%d x /%s/ => %s' % (n, pat, rep)))
         text = new
     return text
